@@ -27,6 +27,7 @@ Fixpoint sx_ev (e : ev) : sexp :=
   | VBool b => SList [SStr "bool"; of_bool b]
   | VStr s => SList [SStr "str"; SStr s]
   | VEnum s => SList [SStr "enum"; SStr s]
+  | VInt z => SList [SStr "int"; SInt z]
   | VList l => SList [SStr "list"; SList (map sx_ev l)]
   | VName n p => SList [SStr "name"; SStr n; sx_link p]
   | VNode c fs => SList [SStr "node"; SStr c; SList (map (fun kv => match kv with (k, v) => SList [SStr k; sx_ev v] end) fs)]
@@ -95,6 +96,7 @@ Fixpoint dx_ev (s : sexp) : option ev :=
       if String.eqb tag "bool" then (do b <- as_bool a; Some (VBool b))
       else if String.eqb tag "str" then (do x <- as_str a; Some (VStr x))
       else if String.eqb tag "enum" then (do x <- as_str a; Some (VEnum x))
+      else if String.eqb tag "int" then (do z <- as_int a; Some (VInt z))
       else if String.eqb tag "list" then
         match a with SList l => do l' <- opt_map' dx_ev l; Some (VList l') | _ => None end
       else None
